@@ -44,6 +44,9 @@ pub struct TestBlock {
     /// expectations and must stay as written
     #[serde(default)]
     pub detached: bool,
+    /// the command is empty: the block has the line `$ ` and nothing to run (no words, exit code 0)
+    #[serde(default)]
+    pub empty_cmd: bool,
 }
 
 #[derive(Clone, Debug, Serialize, Deserialize)]
@@ -111,7 +114,7 @@ impl TestBlock {
             parts.push(format!("(exit {})", self.code));
         }
         if parts.is_empty() {
-            "true".into()
+            if self.empty_cmd { String::new() } else { "true".into() }
         } else {
             parts.join("; ")
         }
@@ -297,6 +300,20 @@ fn gen_test(rng: &mut Rng) -> TestBlock {
     if (outcome == "wrong-output" || outcome == "missing-output") && rng.chance(1, 4) {
         words.insert(0, rng.pick(LOOKALIKES).to_string());
     }
+    if rng.chance(1, 25) {
+        // `$ ` and nothing else: a test that runs nothing; it passes, or stale expectation lines have to go
+        return TestBlock {
+            fence: 3,
+            config: rng.pick(&["", "", " {timeout: 9s}"]).to_string(),
+            comments: vec![],
+            words: vec![],
+            code: 0,
+            outcome: rng.pick(&["pass", "wrong-output"]).to_string(),
+            heredoc: vec![],
+            detached: false,
+            empty_cmd: true,
+        };
+    }
     TestBlock {
         fence: *rng.pick(&[3usize, 3, 3, 4, 5]),
         config: rng.pick(&["", "", " {timeout: 9s}", " {output_stream: combined}", " {keep_crlf: true, timeout: 1m}", " {output_stream: stderr}", " { }", " {}"]).to_string(),
@@ -306,6 +323,7 @@ fn gen_test(rng: &mut Rng) -> TestBlock {
         outcome,
         heredoc: if rng.chance(1, 5) { (0..1 + rng.below(4)).map(|_| rng.pick(HEREDOC_LINES).to_string()).collect() } else { vec![] },
         detached: false,
+        empty_cmd: false,
     }
 }
 
@@ -319,6 +337,7 @@ fn gen_detached(rng: &mut Rng) -> TestBlock {
         outcome: "pass".into(),
         heredoc: vec![],
         detached: true,
+        empty_cmd: false,
     }
 }
 
